@@ -64,6 +64,10 @@ Tpl ==
        reference key of the root, so a later root re-uses a key an earlier call registered *)
     ROOTA |-> Root(Titled(SObj(Props1("w", SInt), {}), "Alpha"), << >>, {"Alpha"}),
     ROOTB |-> Root(Titled(SObj(Props2("v", SInt, "next", SRef("#")), {"v"}), "Beta"), << >>, {"Beta"}),
+    (* a batch with a containment cycle, then later batches / additions that reach it *)
+    RCYC  |-> Ref(<< <<"Node", SObj(Props2("v", SInt, "next", SRef("Node")), {"v"})>> >>, {"Node"}),
+    RUSE  |-> Ref(<< <<"Holder", SObj(Props1("n", SRef("Node")), {})>> >>, {}),
+    TRefNode |-> Typ(SRef("Node"), "", {}),
     ROOT  |-> Root(Titled(SObj(Props1("a", SRef("A")), {}), "Root"), [A |-> ObjA], {}) ]
 
 Names == DOMAIN Tpl
